@@ -532,6 +532,16 @@ func checkPages(sc *Scenario, w, l *OpResult, active []int) []Issue {
 			out = append(out, Issue{"break:avoid-after", "break-after", fmt.Sprintf("%q has break-after: avoid but the next box (%q) starts on page %d instead of %d", kw[0], kw[1], pb+1, pa+1)})
 		}
 	}
+	for _, sp := range e.SamePage {
+		pa, oka := pageOf[sp[0]]
+		pb, okb := pageOf[sp[1]]
+		if oka && okb {
+			clause("C12 next unit fits on the page (pair)", 1)
+			if pa != pb {
+				out = append(out, Issue{"page:underfull", "next-unit-fits", fmt.Sprintf("%q is on page %d although it fits after %q on page %d: the page ends before its content box is full", sp[1], pb+1, sp[0], pa+1)})
+			}
+		}
+	}
 	// reference model for fixed-height blocks: the page of every marker word
 	if len(e.WordPage) > 0 {
 		var ks []string
